@@ -458,7 +458,7 @@ class C05(fw.Property):
     level_note = ("Trusted: Coq kernel + vm_compute; translator py2v.py + the C05 job's ast rewrite (validated by the kernels stream); correspondence of Model/C05.v with "
                   "BlockwiseRequest (sampled scenarios); the reference server as a reading of RFC 7959 / RFC 8323; deduplication (C04) and response matching (C02/C10) as the contract of the retry theorem. "
                   "Not covered: observation + block-wise, the deprecated application-set Block1 option, a response dropping the Block2 option mid-transfer (accepted by design). "
-                  "Open known finding (tier B): the Block1 cursor is doubled once too often when a BERT acknowledgement lowers the exponent from 7 (C05_bert_reduction_refuted; theorems 12/13 are stated for servers keeping 7). "
+                  "The BERT defect found by this check (Block1 cursor doubled once too often when an acknowledgement lowers the exponent from 7) is fixed in /repo (166eafe); model, theorems 12/13 (now for servers that lower the exponent) and corpus follow the fixed code; theorem 13 still assumes a Block2 policy that keeps exponent 7. "
                   "Observation: Observe on an early Block1 acknowledgement ends the request with AttributeError (C05_early_observe_ends_request). The earlier finding (first response Block2 NUM>0, M=0) is fixed (69c1201).")
     rule = ("streams: kernels = _extract_block for all block numbers of boundary-length bodies + BlockwiseTuple methods on boundary tuples vs Gen/block_kernels.v; "
             "transfer = real BlockwiseRequest x Python RFC 7959 reference server vs Coq client model x Coq reference server (body / representation lengths from the boundary "
